@@ -24,6 +24,16 @@ func ToBytes(v interface{}) []byte {
 // ToString 将基本类型转换为字符串
 func ToString(v interface{}) string {
 
+	//unsigned 64-bit kinds do not fit int: print them as they are
+	switch val := v.(type) {
+	case uint64:
+		return strconv.FormatUint(val, 10)
+	case uint:
+		return strconv.FormatUint(uint64(val), 10)
+	case JsUInt64:
+		return strconv.FormatUint(uint64(val), 10)
+	}
+
 	//检查整数
 	var iv, bInt = tryNum2Int(v)
 	if bInt {
